@@ -350,7 +350,15 @@ def rule_ctor_symmetry(ctx):
                 ass = dict(base)
                 ass.update(extra)
                 ass["noise"] = ["notnone", ("notinst", "str", "electrical_signal", "optical_signal", "binary_sequence", "bytes")] if noise == "notnone" else None
-                it = Interp(pkg, self_class=cls, assumptions=ass, valuation=val + [(S("signal.size"), 6)])
+                nd = extra["signal.ndim"]
+                more = []
+                if noise == "notnone":
+                    ass["noise.ndim"] = nd          # past the shape guard the noise has the signal's shape, hence its number of axes
+                if nd >= 1:
+                    # a row of the array has one axis less (a helper may ask the row for its ndim)
+                    from ..forms import mk_attr, mk_idx
+                    more = [(mk_attr(mk_idx(S(nm), Form.num(0)), "ndim"), nd - 1) for nm in ("signal", "noise")]
+                it = Interp(pkg, self_class=cls, assumptions=ass, valuation=val + [(S("signal.size"), 6)] + more)
                 outs = it.run(init)
                 rets = [o for o in outs if o.kind == "return"]
                 case = f"{cls}.__init__ layout [" + ", ".join(f"{k}={v}" for k, v in sorted(extra.items(), key=str)) + (f", shape[0]={val[0][1]}" if val else "") + f", noise {noise}]"
